@@ -73,7 +73,7 @@ CHECKS['C05'] = (
     'Lean 4 theorems about the get_basis front-end model (selection = restriction, notation invariance, empty = all, missing element = KeyError, '
     'version defaulting/int-str, case-insensitive name transform) + differential execution and direct predicates on get_basis/get_references',
     'Proof (on the model): select_is_restriction, select_notation_invariant (any two selections with the same expansion set, error cases included), '
-    'select_missing_keyerror, select_empty_is_all, version_* , transform_case_insensitive; with C20 for the expansion of every notation. Tie: the model '
+    'select_missing_keyerror, select_empty_is_all, select_select (restricting a restriction), version_* , transform_case_insensitive; apply_selection_spec / apply_none_or_empty / apply_missing_keyerror state the same for the whole front end (elements restricted, function_types recomputed for the subset, display name set, every other field untouched; KeyError instead of a partial basis); with C20 for the expansion of every notation. Tie: the model front end applied to the output of compose_table_basis vs get_basis (all top-level fields, element order, types), the model '
     'selection/version functions vs the implementation on the same inputs; the property itself is evaluated on the real results for every capitalisation, '
     'alias, 11+ notations of each selection, ranges crossing undefined elements and malformed strings.',
     BASE_NOTE + 'ASCII names.', '6/C05')
